@@ -59,3 +59,20 @@ Proof.
   cbv zeta. split; [reflexivity|]. split; [apply xsortedb_sound; reflexivity|].
   split; [apply xall_okb_sound; reflexivity|reflexivity].
 Qed.
+
+(* equal_interval (exact arithmetic, everything scaled by k): with the k equal-width cuts of
+   [lo, hi], a value v in [lo, hi] gets the class i of the i-th interval:
+   lo + i*w < v <= lo + (i+1)*w  (the first interval also contains lo), for every k >= 1. *)
+Theorem C12_equal_interval_bands : forall lo hi (k : nat) v,
+  lo < hi -> (0 < k)%nat -> lo <= v <= hi ->
+  exists i, class_cell (ei_cuts lo hi k) (XFin (Z.of_nat k * v)) = Some (XFin i) /\
+    0 <= i <= Z.of_nat k - 1 /\
+    Z.of_nat k * v <= Z.of_nat k * lo + (i + 1) * (hi - lo) /\
+    (0 < i -> Z.of_nat k * lo + i * (hi - lo) < Z.of_nat k * v).
+Proof. exact equal_interval_bands. Qed.
+Print Assumptions C12_equal_interval_bands.
+
+Example C12_equal_interval_example :
+  map (class_cell (ei_cuts 0 10 4)) (map (fun v => XFin (4 * v)) [0; 2; 3; 5; 6; 10])
+  = map (fun i => Some (XFin i)) [0; 0; 1; 1; 2; 3].
+Proof. reflexivity. Qed.
